@@ -38,8 +38,10 @@ def sigArg (r s par : String) : Option Sig := do
   let r ← unhex r
   let s ← unhex s
   let p ← par.toNat?
-  if r.length > 32 || s.length > 32 || p > 1 then none
-  else if Sig.validScalars (beVal r) (beVal s) then some ⟨beVal r, beVal s, p == 1⟩ else none
+  -- the last argument is a k256 recovery id 0..3 (`Signature::from_parts` takes those): bit 0 is the y-parity, bit 1 ("x was
+  -- reduced") plays no part in anything this crate prints or encodes
+  if r.length > 32 || s.length > 32 || p > 3 then none
+  else if Sig.validScalars (beVal r) (beVal s) then some ⟨beVal r, beVal s, p % 2 == 1⟩ else none
 
 def optAddrStr (a : Option Bytes) : String := match a with
   | some b => hx b
@@ -290,7 +292,7 @@ def runOp (env : Env) (parts : List String) : Resp :=
     | none => .harness "invalid scalars"
   | ["sig.v", par, chain] =>
     match par.toNat?, (if chain == "none" then some none else (unhex chain).map (fun b => some (beVal b))) with
-    | some par, some c => ofRes (Sig.v ⟨1, 1, par == 1⟩ c) fun v => [nat256hex v]
+    | some par, some c => if par > 3 then .harness "bad recovery id" else ofRes (Sig.v ⟨1, 1, par % 2 == 1⟩ c) fun v => [nat256hex v]
     | _, _ => .harness "bad arg"
   | ["rlp.len", n, off] =>
     match n.toNat?, off.toNat? with
@@ -383,7 +385,7 @@ def judgeOp (env : Env) (parts : List String) (resp : String) : Verdict :=
         | some encb =>
           if dg != hx (Prim.keccak256 (Spec.Tx.signingPayload tx)) then .fails "signing digest is not keccak256 of the payload without signature"
           else
-            let want := Spec.Tx.expected tx (some ⟨Spec.Tx.sigV tx par, beVal r, beVal s⟩)
+            let want := Spec.Tx.expected tx (some ⟨Spec.Tx.sigV tx (par % 2), beVal r, beVal s⟩)
             match Spec.Tx.decode encb with
             | some dec => expect (dec == want) "decoded fields / (v, r, s) differ from the document and the given signature"
             | none => .fails "strict decoder rejects the signed bytes (non-canonical integer or length?)"
@@ -410,9 +412,10 @@ def judgeOp (env : Env) (parts : List String) (resp : String) : Verdict :=
     -- EIP-155 as arithmetic on integers: v = 35 + 2c + yParity (27 + yParity without chain id); when that does not fit
     -- 256 bits the statement wants an ordinary error (a wrapped v names another chain)
     match par.toNat?, (if chain == "none" then some none else (unhex chain).map (fun b => some (beVal b))) with
-    | some par, some c =>
+    | some rid, some c =>
+      let par := rid % 2
       let v := match c with | some c => 35 + 2 * c + par | none => 27 + par
-      if par > 1 then .skip
+      if rid > 3 then .skip
       else if v < 2 ^ 256 then expect (resp == "ok " ++ nat256hex v) "v must be 35 + 2·chainId + yParity (27 + yParity without chain id) exactly, as an integer"
       else expect (resp == "err" || resp == "panic") "35 + 2·chainId + yParity does not fit 256 bits: no v may be produced"
     | _, _ => .skip
@@ -426,7 +429,7 @@ def judgeOp (env : Env) (parts : List String) (resp : String) : Verdict :=
     | some i => judgeForIndex i resp
     | none => .skip
   | ["sig.print", r, s, p] => match unhex r, unhex s, p.toNat? with
-    | some r, some s, some p => judgeSigPrint (beVal r) (beVal s) p resp
+    | some r, some s, some p => if p > 3 then .skip else judgeSigPrint (beVal r) (beVal s) (p % 2) resp
     | _, _, _ => .skip
   | ["sig.parse", a] => match utf8Arg a with
     | some s => judgeSigParse (String.ofList s) resp
